@@ -39,7 +39,7 @@ Proof. exact delete_only_earlier. Qed.
 
 (* rollback, abort and dropping the writer restore the last committed state *)
 Theorem C02_rollback_restores : forall f1 nw h u payload sc sc', (0 < nw)%nat -> is_restore u ->
-  F2_class f1 (h ++ [u; Commit payload]) = false -> F2_class f1 h = false ->
+  F2_class f1 (h ++ [u; Commit payload]) = false ->
   Permutation (published (fst (run f1 nw (h ++ [u; Commit payload]) sc))) (published (fst (run f1 nw h sc'))).
 Proof. exact rollback_restores. Qed.
 Theorem C02_restore_reloads_meta : forall f1 st u s, is_restore u ->
